@@ -22,7 +22,9 @@ LEVEL = "exploration"
 NAMES = ["a.log", "b.log", "B.log", "app.log.1", "messages", "syslog", "x y.log", "ñ.log", "日本.log", ".hidden.log", "z.txt", "k.log.gz", "m.log.xz",
          "arch.tar", "noext", "10.log", "2.log", "-dash.log", "image.png", "prog.exe", "lib.so", "page.html", "data.zip",
          # names that continue a sibling directory's name with a character that sorts before '/'
-         "d1.log", "d1-old.log", "d1 2.log", "0.log", "Zdir,1.log", "app.log", "app-error.log"]
+         "d1.log", "d1-old.log", "d1 2.log", "0.log", "Zdir,1.log", "app.log", "app-error.log",
+         # names that end in white space, beside a sibling without it: a path read from stdin is the line as it stands (round-6 change C15g)
+         "app.log ", "trail.log ", "tab.log\t", " lead.log"]
 NONLOG = (".png", ".exe", ".so", ".html", ".zip")
 DIRS = ["d1", "sub dir", "Zdir", "a.d", "日本", "logs.old", "0", "app", "d1"]
 
